@@ -84,3 +84,11 @@ add("C06", "fault_enumeration", [
     {"name": "c06-random", "bin": "c06", "pkg": ZZ + "c06", "run": "^TestVerifC06Random$", "tier_only": "thorough",
      "shards": {"thorough": 12}, "checks": {"thorough": 40}, "timeout": {"thorough": 3000}, "shrinktime": "60s"},
 ])
+
+add("C03", "exploration", [
+    {"name": "c03-random", "bin": "exec", "pkg": "./exec", "run": "^TestVerifC03EvalRandom$", "tool": "go1.26.8",
+     "shards": {"quick": 8, "thorough": 16}, "checks": {"quick": 1500, "thorough": 60000},
+     "timeout": {"quick": 600, "thorough": 3000}},
+    {"name": "c03-enum", "bin": "exec", "pkg": "./exec", "run": "^TestVerifC03(EvalEnum|KnownS5)$", "tool": "go1.26.8",
+     "shards": {"quick": 8, "thorough": 16}, "timeout": {"quick": 600, "thorough": 3000}},
+])
